@@ -41,6 +41,12 @@ def bad_value(rng, name, n):
 
 def array_program(rng):
     name, n = rng.choice(DTYPES)
+    if rng.random() < 0.03:
+        # a dtype without any bits per item cannot make an Array (refused; nothing is created)
+        zname = rng.choice(['uint', 'int', 'hex', 'bin', 'bits', 'bytes', 'oct'])
+        return {'calls': [{'op': 'anew', 'rid': 'a', 'sa': [zname, rng.choice(['list', 'extend'])], 'ia': [0, rng.randint(0, 2)], 'va': []},
+                          {'op': 'anew', 'rid': 'b', 'sa': [name, 'list'], 'ia': [n, 0], 'va': []},
+                          {'op': 'asetdtype', 't': 'b', 'sa': [zname], 'ia': [0]}, {'op': 'alen', 't': 'b'}]}
     k = rng.choice([0, 1, 2, 3, 4, 5, 7])
     items = [item_value(rng, name, n) for _ in range(k)]
     unit = 8 if name == 'bytes' else 1
